@@ -177,6 +177,15 @@ let fs (toks : string list) : string =
       | "V" :: loc :: p :: r -> step (OResolve (parse_l p, fs_loc loc)) r
       | "L" :: loc :: p :: pat :: r -> step (OList (parse_l p, fs_pattern pat, fs_loc loc)) r
       | "S" :: loc :: p :: r -> step (OSubdirs (parse_l p, fs_loc loc)) r
+      (* test set-up, not an API call: a hard link inside layer li; in the tree model a second file with the same bytes *)
+      | "H" :: li :: src :: dst :: r ->
+        let li = int_of_string li in
+        let layers' = List.mapi (fun k l ->
+          if k = li then (match List.assoc_opt (split_path (parse_l src)) l with
+                          | Some (File b) -> add_entry l (split_path (parse_l dst)) (File b)
+                          | _ -> l)
+          else l) s.layers in
+        emit { s with layers = layers' } "link:ok" r
       (* typed helpers: the abstract parsers of the model are instantiated with functions that report the
          codec parameters they were called with; the abstract serializers return the bytes given in the case *)
       | "TA" :: loc :: p :: r ->
